@@ -72,8 +72,12 @@ def edits(model):
                         pass
             v.metadata_props[f"edited{k}"] = "1"
             v.doc_string = f"doc{k}"
-            if not v.is_initializer():
+            # (initializers too: the name setter also renames the - possibly shared - backing tensor; the other copy must
+            # still serialize under its own names)
+            try:
                 v.name = f"renamed_{k}"
+            except Exception:  # noqa: BLE001
+                pass
         for n in list(g):
             n.name = (n.name or "") + "_edited"
             n.metadata_props["edited"] = "1"
@@ -88,6 +92,24 @@ def edits(model):
         g.doc_string = "edited"
 
 
+def m_deep_capture():
+    """A branch whose own nested branch reads values of the main graph (a capture two scopes up)."""
+    from onnx import TensorProto, helper
+    vi = models.vi
+    inner_then = helper.make_graph([helper.make_node("Abs", ["x"], ["t2"], name="abs2")], "inner_then", [], [vi("t2")])
+    inner_else = helper.make_graph([helper.make_node("Neg", ["h"], ["e2"], name="neg2")], "inner_else", [], [vi("e2")])
+    # the body's own (depth 0) nodes read only local values; only the nodes one level further down capture x and h
+    cc = helper.make_tensor("cc_value", TensorProto.BOOL, [], [True])
+    then_g = helper.make_graph([helper.make_node("Constant", [], ["cc"], name="const_cc", value=cc),
+                                helper.make_node("If", ["cc"], ["t1"], name="inner_if", then_branch=inner_then, else_branch=inner_else)],
+                               "outer_then", [], [vi("t1")])
+    else_g = helper.make_graph([helper.make_node("Neg", ["x"], ["e1"], name="neg1")], "outer_else", [], [vi("e1")])
+    nodes = [helper.make_node("Relu", ["x"], ["h"], name="relu"),
+             helper.make_node("If", ["c"], ["y"], name="outer_if", then_branch=then_g, else_branch=else_g)]
+    g = helper.make_graph(nodes, "deep_capture", [vi("x"), helper.make_tensor_value_info("c", TensorProto.BOOL, [])], [vi("y")])
+    return helper.make_model(g, opset_imports=[helper.make_opsetid("", 18)], ir_version=10)
+
+
 def main():
     ap = argparse.ArgumentParser()
     ap.add_argument("--tier", default="quick")
@@ -95,7 +117,7 @@ def main():
     a = ap.parse_args()
     t0 = time.time()
     failures, evaluations, distinct, samples = [], 0, set(), []
-    for mname, mk in models.ALL.items():
+    for mname, mk in list(models.ALL.items()) + [("deep_capture", m_deep_capture)]:
         if mname in ("names", "unsorted_subgraph"):
             # a graph (or nested body) whose nodes are not in topological order: the cloner documents sortedness as its
             # precondition and rejects such a graph with an error, which the statement allows
@@ -144,6 +166,25 @@ def main():
                     failures.append(f"{tag}: raised {e!r}"[:200])
                 if len(samples) < 4:
                     samples.append({"model": mname, "construction": how, "cloned": kind})
+        # every nested body on its own: cloning it either raises (it captures values that are not part of the clone and
+        # outer-scope values were not allowed) or yields a graph none of whose node inputs is a value of the original
+        base = ir.from_proto(mk())
+        orig_values = {}
+        for g0 in base.graphs():
+            for v in list(g0.inputs) + list(g0.initializers.values()) + [o for n in g0 for o in n.outputs]:
+                orig_values[id(v)] = v
+        for g0 in list(base.graphs())[1:]:
+            evaluations += 1
+            distinct.add((mname, "nested-body", g0.name))
+            try:
+                gc = g0.clone()
+            except Exception:  # noqa: BLE001
+                continue            # a clear error is allowed
+            for n in ir.traversal.RecursiveGraphIterator(gc):
+                for inp in n.inputs:
+                    if inp is not None and id(inp) in orig_values and orig_values[id(inp)] is inp:
+                        failures.append(f"{mname}/nested body {g0.name!r}: the clone's node {n.name!r} reads the ORIGINAL value {inp.name!r} "
+                                        "although outer-scope values were not allowed")
         # functionalized passes never alter their input
         for pname in P.__all__:
             cls = getattr(P, pname)
